@@ -527,6 +527,8 @@ SERVICE_ROWS = {
     'path_loose_ila': dict(id='s4', src='C', dst='A', trx='Voyager', mode='mode 1', spacing=50, path='B | I | A', loose='yes', bw=100),
     'disjoint': dict(id='s5', src='A', dst='C', trx='Voyager', mode='mode 1', spacing=50, disjoint='s1', bw=100),
     'disjoint_two': dict(id='s6', src='B', dst='C', trx='vendorA_trx-type1', mode='PS_SP64_1', spacing=50, disjoint='s1 | 7', bw=100),
+    # a second row that is disjoint from the same request as 'disjoint': each row still gets its own group
+    'disjoint_same_target': dict(id='s12', src='B', dst='C', trx='Voyager', mode='mode 1', spacing=50, disjoint='s1', bw=100),
     'neg_power': dict(id='s8', src='B', dst='A', trx='Voyager', mode='mode 1', spacing=62.5, power=-2.5, bw=100),
     'blank_loose': dict(id='s9', src='A', dst='B', trx='Voyager', mode='mode 1', spacing=50, path='I | B', bw=100),
     'strict_ila_then_roadm': dict(id='s10', src='A', dst='C', trx='Voyager', mode='mode 1', spacing=50, path='I | B | C', loose='no', bw=100),
@@ -716,8 +718,8 @@ def main(rep, tier, seed):
         cases.append({'mut': ['west_values', 'coordinates'], 'error': e})
     srows = list(SERVICE_ROWS)
     for k in (1, 2, 3):
-        for combo in itertools.combinations(srows, k):
-            if k == 3 and tier == 'quick' and (hash(combo) + seed) % 3:
+        for ci, combo in enumerate(itertools.combinations(srows, k)):
+            if k == 3 and tier == 'quick' and (ci + seed) % 3:
                 continue
             cases.append({'mut': ['eqpt_ila'] if k == 2 else [], 'services': list(combo)})
     cases.append({'mut': [], 'services': srows})
